@@ -138,6 +138,70 @@ def svm_op(r, data, ctx=None, forced=None):
     return f"svm {fmt} {lab} {ty} {dims} {bs} {m} {hx(data)}"
 
 
+def gen_csv_file(r, kind, lp, sep, nout, ctx=None):
+    """kind u/c/r; returns bytes"""
+    n = r.choice([0, 1, 1, 2, 3, 4, 5, 7, 9, 12])
+    d = r.choice([1, 1, 2, 3, 4, 6])
+    ws = sep in " \t"
+    labelset = r.choice(["pm1", "01", "12", "multi", "neg", "dot"])
+    ragged = r.chance(1, 10)
+    lines = []
+    for _ in range(n):
+        dd = d + (r.range(-1, 1) if ragged and r.chance(1, 3) else 0)
+        cells = []
+        for _ in range(max(dd, 0)):
+            k = r.below(100)
+            if k < 6: cells.append("?")
+            elif k < 10 and not ws: cells.append("")
+            else: cells.append(num_token(r))
+        if kind == "c":
+            if labelset == "pm1": lab = r.choice(["-1", "1", "+1"])
+            elif labelset == "01": lab = r.choice(["0", "1"])
+            elif labelset == "12": lab = r.choice(["1", "2"])
+            elif labelset == "multi": lab = str(r.range(0, 5))
+            elif labelset == "neg": lab = r.choice(["-1", "1", "-2", "3", "0", "2147483648"])
+            else: lab = r.choice(["1.", "1.0", "2.000", "0.5", "3.5", "1"])
+            cells = [lab] + cells if lp == "F" else cells + [lab]
+        pad = r.choice(["", "", "", " ", "  "])
+        joiner = (sep if not ws else r.choice([sep, sep, sep + sep])) if True else sep
+        if not ws and pad: joiner = pad + sep + pad
+        line = joiner.join(cells)
+        k = r.below(40)
+        if k == 0: line += " # trailing comment"
+        elif k == 1: line = "# a comment line\n" + line
+        elif k == 2: line = " " + line + " "
+        elif k == 3 and not ws: line += sep
+        lines.append(line)
+    eol = r.choice(["\n", "\n", "\n", "\r\n", "\r", "\n\n", "mixed"])
+    out = ""
+    for i, l in enumerate(lines):
+        e = r.choice(["\n", "\r\n", "\r", "\n\n", " \n"]) if eol == "mixed" else eol
+        if i == len(lines) - 1 and r.chance(1, 3): e = ""
+        out += l + e
+    if r.chance(1, 15): out = r.choice(["\n", "# header\n", " "]) + out
+    if ctx:
+        ctx.hist("csv_records", n); ctx.hist("csv_eol", repr(eol)); ctx.hist("csv_dims", d)
+        if kind == "c": ctx.hist("csv_labelset", labelset)
+    return out.encode()
+
+
+def csv_params(r):
+    kind = r.choice(["u", "c", "c", "r"]); ty = r.choice(["f64", "f32"]); lp = r.choice(["F", "L"])
+    sep = r.choice([",", ",", ";", " ", "\t", "|", ":"])
+    nout = r.choice([1, 1, 2, 0, 3]) if kind == "r" else 1
+    maxb = r.choice([1, 2, 3, 4, 256])
+    return kind, ty, lp, sep, nout, maxb
+
+
+def csv_op(params, data, ctx=None):
+    kind, ty, lp, sep, nout, maxb = params
+    m = mode_of(data)
+    if ctx:
+        ctx.hist("csv_overload", f"{kind}{ty}{lp if kind != 'u' else ''}"); ctx.hist("mode", m)
+        ctx.hist("csv_separator", repr(sep)); ctx.hist("batch_size_arg", maxb)
+    return f"csv {kind} {ty} {lp} {nout} {ord(sep)} {ord('#')} {maxb} {m} {hx(data)}"
+
+
 # ------------------------------------------------------------------ corpus / classification
 def load_corpus():
     d = os.path.join(core.VERIF, "corpus", "C19")
@@ -176,9 +240,9 @@ def classify(ops, res):
         else:
             feat = "other"
     else:
-        feat = "other"
+        feat = "F9-fractional-label" if t[1] == "c" and re.search(rb"\d\.\d*[1-9]|\d[ \t]+\d", data) else "other"
     if res.crash:
-        m = re.search(r"ERROR: AddressSanitizer: (\S+)|runtime error: ([^\n]*)", res.stderr)
+        m = re.search(r"(?:ERROR|SUMMARY): AddressSanitizer: (\S+)|runtime error: ([^\n]*)", res.stderr)
         tag = (m.group(1) or m.group(2)) if m else ("timeout" if "TIMEOUT" in res.stderr else "crash")
         tag = re.sub(r"0x[0-9a-f]+", "ADDR", tag)[:60].replace(" ", "_")
         return f"{t[0]}:{feat}:crash:{tag}", f"importer aborted ({tag}) on {what_in}"
@@ -206,7 +270,7 @@ def run(ctx):
     drv = ctx.driver("drv_c19")
     if not exe or not drv:
         return
-    nvalid, nmut = (400, 400) if ctx.quick else (4000, 6000)
+    nvalid, nmut = (1500, 2500) if ctx.quick else (15000, 35000)
     cases = load_corpus()
     ctx.cov["corpus_cases"] = len(cases)
     r = ctx.rng.fork("c19")
@@ -215,6 +279,12 @@ def run(ctx):
     for _ in range(nmut):
         base = gen_svm_file(r)
         cases.append([svm_op(r, mutate(r, base, ctx), ctx)])
+    for _ in range(nvalid):
+        prm = csv_params(r)
+        cases.append([csv_op(prm, gen_csv_file(r, prm[0], prm[2], prm[3], prm[4], ctx), ctx)])
+    for _ in range(nmut):
+        prm = csv_params(r)
+        cases.append([csv_op(prm, mutate(r, gen_csv_file(r, prm[0], prm[2], prm[3], prm[4]), ctx), ctx)])
     ctx.cov["evaluations"] = len(cases)
     ctx.cov["distinct_nontrivial"] = len({c[0] for c in cases if decode(c[0]).count(b"\n") >= 2})
     ctx.sample({"op": cases[len(cases) // 2][0][:200]})
